@@ -1499,14 +1499,31 @@ class HasSemantics(metaclass=abc.ABCMeta):
                 for set_ in self.parent.namespace_element_sets:
                     if set_.contains_id("semantic_id", semantic_id):
                         raise KeyError("Object with semantic_id is already present in the parent Namespace")
-            set_add_list: List[NamespaceSet] = []
+            # re-add the object to the sets that contain it (they may be keyed by semantic_id, and the add hook of a
+            # SubmodelElementList checks the new semantic_id) - at the position it had in an ordered set; if it is
+            # refused, the old semantic_id and the old position are restored
+            set_add_list: List[Tuple[NamespaceSet, Optional[int]]] = []
             for set_ in self.parent.namespace_element_sets:
                 if self in set_:
-                    set_add_list.append(set_)
+                    set_add_list.append((set_, set_.index(self) if isinstance(set_, OrderedNamespaceSet) else None))
                     set_.discard(self)
+            old_semantic_id = self._semantic_id
             self._semantic_id = semantic_id
-            for set_ in set_add_list:
-                set_.add(self)
+            try:
+                for set_, position in set_add_list:
+                    if position is None:
+                        set_.add(self)
+                    else:
+                        set_.insert(position, self)  # type: ignore
+            except Exception:
+                self._semantic_id = old_semantic_id
+                for set_, position in set_add_list:
+                    if self not in set_:
+                        if position is None:
+                            set_.add(self)
+                        else:
+                            set_.insert(position, self)  # type: ignore
+                raise
         # Redundant to the line above. However, this way, we make sure that we really update the _semantic_id
         self._semantic_id = semantic_id
 
